@@ -331,7 +331,15 @@ def corpus_units():
 ENGINES = [{"name": "c14", "gen": gen, "corpus": corpus, "nontrivial": nontrivial, "classify": classify, "shards": 4},
            {"name": "c14u", "gen": gen_units, "corpus": corpus_units, "nontrivial": nontrivial_units, "classify": classify_units, "shards": 4}]
 from props.e2e_common import e2e_engine, E2E_TRUSTED
-ENGINES.append(e2e_engine("C14"))   # a real bmp-tcp-in unit: returning routers keep their ingress id, also across a listener re-bind
+ENGINES.append(e2e_engine("C14"))
+
+
+def known_signature(k, engine, case, model, spec, impl):
+    """C14-old-task-removes-new-session (engine e2e, class KD): every departing token is the model's, at a RIB answer or a router-list
+    count after the old connection of a router that had connected a second time ended."""
+    import vcommon as V
+    return engine == "e2e" and k.get("class") == "KD" and V.explained_by(model, spec, impl, {"KD"} | set(k.get("also", [])))
+   # a real bmp-tcp-in unit: returning routers keep their ingress id, also across a listener re-bind
 TRUSTED_BASE.append(E2E_TRUSTED)
 EXTRAS = [race, contend, merge]
 
